@@ -22,10 +22,10 @@ theorem numWordLen_app (t r : Bytes) (ht : ∀ c ∈ t, wordChar c = true) :
   | cons c t ih =>
     have hc := ht c (by simp)
     simp only [wordChar, Bool.and_eq_true, ne_eq, decide_eq_true_eq, Bool.not_eq_eq_eq_not, Bool.not_true] at hc
-    obtain ⟨⟨⟨⟨h1, h2⟩, h3⟩, h4⟩, _⟩ := hc
+    obtain ⟨⟨⟨⟨⟨h1, h2⟩, h3⟩, h4⟩, _⟩, h37⟩ := hc
     have := ih (fun x hx => ht x (by simp [hx]))
     have h46 : ¬ (46 = c) := fun h => h4 h.symm
-    simp [numWordLen, h1, h2, h3, startsWith, List.isPrefixOf, this, h46]
+    simp [numWordLen, h1, h2, h3, h37, startsWith, List.isPrefixOf, this, h46]
     omega
 
 theorem numWordLen_dot (r : Bytes) (h : hd r ≠ 46) : numWordLen (46 :: r) = numWordLen r + 1 := by
